@@ -8,13 +8,13 @@ CLAIMED = {
  "C01": ("proof", "Token-level whole-object theorem for the MsgPack archive (every saved tree is one complete value; every field saved under a key is what a load of that key returns, in any request order; closing leaves the reader behind the object) composed from C03/C05/C06/C07; CSV archive round trip (C09); text/number round trips (C11, C16); save->load round trips through all four real archives from memory and streams judged for equality.",
          "PARTIAL: JSON/XML adapters and third-party codecs are exercised (round trips) but not modelled here; encodings/pretty-printing covered by C13/C08 ops; recorded findings: XML empty element, CSV empty array"),
  "C02": ("proof", "Totality of every model function (no hang), progress/termination theorem of the chunked reader, iterator/position bounds, every failure a value of the error type; two resource findings stated as refutation theorems; structure-aware mutations of documents of all four archives and malformed converter inputs run under ASan+UBSan with time limits.",
-         "PARTIAL: RapidJSON/pugixml parsers are exercised, not proved; misaligned loads excluded from UBSan; recorded findings: header-driven pre-allocation, unbounded recursion, throwing destructor"),
+         "PARTIAL: RapidJSON/pugixml parsers are exercised, not proved; misaligned loads excluded from UBSan; recorded findings: header-driven pre-allocation, unbounded recursion"),
  "C17": ("proof", "For every class/validator subset/document/cap: ValidationException iff some validator fails; the report is exactly the failing fields with their messages in declaration order (cap 0), or the first n fields with the n-th cut at its first message (cap n); passing fields loaded; built-in validator semantics; default messages regenerated from the source.",
          "Email/PhoneNumber exercised only; object state after an early (capped) throw not modelled"),
  "C18": ("proof", "For all priors, estimates and item lists of every container kind: loading into a populated target equals loading into a fresh one whenever no element is skipped inside a reused slot (exact decidable exclusion, refutation witness for the unrestricted statement); map modes never add / never remove keys; optional/pointers independent of prior.",
          "abstract array archive (estimate + per-item loaded flag); MsgPack and CSV executed; one recorded finding (stale value kept when an element is not loaded, by design per README)"),
- "C03": ("proof", "Unbounded theorems about the model of CMsgPackReadObjectScope: cursor invariant, cyclic key scan with wrap-around, every request history answered as the abstract finite map, destructor leaves the reader behind the object; real scopes driven with request histories from memory and streams and judged against an abstract data model.",
-         "token-level reader abstraction (byte level: C07 model); JSON/XML/CSV lookups exercised only; one recorded finding (array scope left partly read)"),
+ "C03": ("proof", "Unbounded theorems about the model of CMsgPackReadObjectScope: cursor invariant, cyclic key scan with wrap-around, every request history answered as the abstract finite map — also histories that leave array scopes partly read (the array destructor skips the rest) —, destructor leaves the reader behind the object; real scopes driven with request histories from memory and streams and judged against an abstract data model.",
+         "token-level reader abstraction (byte level: C07 model); JSON/XML/CSV lookups exercised only"),
  "C04": ("proof", "Theorems for all 64 integer type pairs and all values (exact or out_of_range, never wrapped), bool and float-source branches, ConvertByPolicy total case split; floating-point operations are a parameter with explicit laws; 8-bit sources exhaustive in the correspondence run.",
          "conversion layer and text cells (archive positions of MsgPack: C07; JSON/XML positions pending); IEEE laws assumed, checked on samples; one recorded finding (non-finite double to float)"),
  "C05": ("proof", "Reader level: SkipValue equals 'consume one Spec object' for all inputs/positions/nestings, mismatch and overflow skip consume exactly one value; scope level: array element index and reader position stay in step, object cursor invariant re-established after any skipped member.",
@@ -43,8 +43,8 @@ CLAIMED = {
          "libstdc++ to_chars/from_chars for floats assumed (tested exhaustively for float32); std::isdigit on ASCII"),
  "C19": ("proof", "Non-interference theorem for every schedule of threads with footprints confined to private locations and shared constants; side conditions regenerated from the clang AST (all statics immutable or written only during static initialisation) and from objdump (writable-section symbols); TSan stress compares every result with the sequential run.",
          "PARTIAL: the memory-model behaviour of the compiled code is only exhibited by the ThreadSanitizer validation run; AST inventory translator trusted"),
- "C20": ("proof", "Scope-lifetime machine: with infallible destructors no program/fault schedule terminates and the first failure surfaces; destructor inventory with transitive may-throw analysis regenerated from the clang AST (exactly the two recorded destructors can throw); fault enumeration (every truncation, k-th allocation failure, stream failure at every offset, mid-save errors) on 16 scenarios.",
-         "PARTIAL: allocator and iostream failure behaviour are runtime validation; two recorded findings (throwing destructors), one JSON finding"),
+ "C20": ("proof", "Scope-lifetime machine with deferring destructors: when no destructor lets an exception escape no program/fault schedule terminates, a failing step surfaces as its own exception and a deferred destructor error is rethrown by Finalize(), never swallowed; destructor inventory with transitive, try/catch-all aware may-throw analysis regenerated from the clang AST (no destructor of the library can let an exception escape; exactly three defer); fault enumeration (every truncation, k-th allocation failure, stream failure at every offset, mid-save errors) on 16 scenarios.",
+         "PARTIAL: allocator and iostream failure behaviour are runtime validation"),
 }
 NOT_YET = "check not built yet in this round (work in progress; see DESIGN.md §9)"
 
